@@ -249,7 +249,7 @@ func constInt(v ssa.Value) (int64, bool) {
 
 // C07 — compatibility distance.
 func C07(p *Prog, r *Run) {
-	r.Explanation = "Decided on compatibility/compatLinear/compatFast: (1) the method dispatch reaches the linear walk exactly for the `linear` option value and the fast walk otherwise; (2) every float division whose denominator is a loop counter starting at 0 is dominated by a test that the counter is positive (never NaN); (3) merge-walk exhaustion: every way out of the walk either has both cursors exhausted, or has one exhausted and adds the remainder of the other list to the distance; (4) per-step accounting over every acyclic path of one loop iteration: a step that advances one cursor adds exactly one unit (one coefficient) of disjoint-or-excess and nothing else, the step that advances both adds no unit, counts one match and accumulates |m1-m2| of the two current genes, no step leaves both cursors in place; in the linear walk a unit is 'excess' exactly when the other list is exhausted, in the fast walk unit kind and next switch state follow the 4-state table; (5) both methods read only the three coefficients, InnovationNum and MutationNum and write nothing; (6) the coefficients read are the configured ones: nothing in the library overwrites them in an Options object it was handed, a loader fills them only from its input. In the fast walk an unmatched step advances the list whose current innovation number is larger. Not decided: equality of the two methods' values for all pairs (implied by 3-4 only informally), floating-point summation order."
+	r.Explanation = "Decided on compatibility/compatLinear/compatFast: (1) the method dispatch reaches the linear walk exactly for the `linear` option value and the fast walk otherwise; (2) every float division whose denominator is a loop counter starting at 0 is dominated by a test that the counter is positive (never NaN); (3) merge-walk exhaustion: every way out of the walk either has both cursors exhausted, or has one exhausted and adds the remainder of the other list to the distance; (4) per-step accounting over every acyclic path of one loop iteration: a step that advances one cursor adds exactly one unit (one coefficient) of disjoint-or-excess and nothing else, the step that advances both adds no unit, counts one match and accumulates |m1-m2| of the two current genes, no step leaves both cursors in place; in the linear walk a unit is 'excess' exactly when the other list is exhausted, in the fast walk unit kind and next switch state follow the 4-state table; the merge loop may be followed by tail loops that each walk the rest of one list (each judged on its own: entered only with the other list exhausted, one unit per remaining gene, left only with the list exhausted, continuing cursor and count of the walk), or the remainder may be added in one piece (len-cursor) behind the loop; (4b) start state: all counters 0, cursors on the first gene in walking direction; (4c) result: on every way from the end of the walk to a return the value returned is DisjointCoeff*D + ExcessCoeff*E (+ MutdiffCoeff*MD/M exactly when genes matched) over the final counters, nothing else added, subtracted or rescaled; (4d) a return in front of the walk happens only for an empty gene list and yields ExcessCoeff times the genes of the other list; (5) both methods read only the three coefficients, InnovationNum and MutationNum and write nothing; (6) the coefficients read are the configured ones: nothing in the library overwrites them in an Options object it was handed, a loader fills them only from its input. In the fast walk an unmatched step advances the list whose current innovation number is larger. Not decided: equality of the two methods' values for all pairs (implied by 3-4 only informally), floating-point summation order."
 	comp := p.Func(PkgG, "Genome.compatibility")
 	lin := p.Func(PkgG, "Genome.compatLinear")
 	fast := p.Func(PkgG, "Genome.compatFast")
@@ -307,13 +307,15 @@ func C07(p *Prog, r *Run) {
 	walk := func(fn *ssa.Function, kind string) {
 		tm := NewTermer(fn)
 		loops := Loops(fn)
-		if len(loops) != 1 {
-			r.Undecided(fn.Name()+".loop", p.Pos(fn.Pos()), fmt.Sprintf("expected one merge loop, found %d", len(loops)))
-			return
-		}
-		l := loops[0]
 		fam1 := cursorFamily(fn, tm, "recv.Genes")
 		fam2 := cursorFamily(fn, tm, "p1.Genes")
+		// one merge loop, possibly followed by tail loops that each walk the rest of ONE list
+		// (loop fission by phase: `for i1<n1 && i2<n2 {compare}; for ; i2<n2; i2++ {excess++}; for ; i1<n1; i1++ {excess++}`)
+		l, tails, whyLoops := c07SplitLoops(loops, fam1, fam2)
+		if l == nil {
+			r.Undecided(fn.Name()+".loop", p.Pos(fn.Pos()), whyLoops)
+			return
+		}
 		if len(fam1) == 0 || len(fam2) == 0 {
 			r.Undecided(fn.Name()+".cursors", p.Pos(fn.Pos()), "cannot find the two list cursors")
 			return
@@ -338,11 +340,8 @@ func C07(p *Prog, r *Run) {
 			t := tm.Of(v)
 			return t.Op == "field" && t.Obj == f
 		}
-		for _, ph := range HeaderPhis(l) {
-			if fam1[ph] || fam2[ph] {
-				continue
-			}
-			// how is the phi (or values merged from it) used after the loop / inside?
+		// roleOf: how is the loop-carried value (or values merged from it) used after the loop / inside?
+		roleOf := func(ph *ssa.Phi) string {
 			role := ""
 			seen := map[ssa.Value]bool{}
 			var visit func(v ssa.Value, depth int)
@@ -398,7 +397,13 @@ func C07(p *Prog, r *Run) {
 				}
 			}
 			visit(ph, 0)
-			switch role {
+			return role
+		}
+		for _, ph := range HeaderPhis(l) {
+			if fam1[ph] || fam2[ph] {
+				continue
+			}
+			switch roleOf(ph) {
 			case "disjoint":
 				dCnt = ph
 			case "excess":
@@ -411,7 +416,9 @@ func C07(p *Prog, r *Run) {
 				costAcc = ph
 			}
 		}
-		if mCnt == nil || mdAcc == nil || (kind == "linear" && (dCnt == nil || eCnt == nil)) || (kind == "fast" && costAcc == nil) {
+		// (the excess counter need not be carried by the merge loop itself: when the excess genes are counted
+		// behind the loop it stays at its initial constant here; the exit obligations below then decide)
+		if mCnt == nil || mdAcc == nil || (kind == "linear" && dCnt == nil) || (kind == "fast" && costAcc == nil) {
 			r.Undecided(fn.Name()+".accumulators", p.Pos(fn.Pos()), fmt.Sprintf("cannot identify the accumulators (disjoint=%v excess=%v matching=%v mutdiff=%v cost=%v)", dCnt != nil, eCnt != nil, mCnt != nil, mdAcc != nil, costAcc != nil))
 			return
 		}
@@ -437,12 +444,32 @@ func C07(p *Prog, r *Run) {
 			r.Check(sw != nil, fn.Name()+".state", p.Pos(fn.Pos()), "an integer state distinguishes `first gene`, `excess on list 1`, `excess on list 2` and `no more excess`",
 				"the backward walk carries no integer state that tells excess genes on either list from disjoint ones (one flag is not enough: a mismatch on the other list than the one holding the excess tail ends the excess region)")
 		}
+		// tail loops behind the merge loop: each is judged on its own (one obligation per tail loop); the lists
+		// whose remainder a sound tail loop counts are what an exit of the merge loop may rely on
+		var tailInfo *c07Tails
+		if len(tails) > 0 {
+			mainAcc := eCnt
+			if kind == "fast" {
+				mainAcc = costAcc
+			}
+			tailInfo = r.c07CheckTails(fn, tm, kind, l, tails, fam1, fam2, c1, c2, mainAcc, paths, roleOf,
+				func(v ssa.Value) bool { return isOptField(v, opt("DisjointCoeff")) },
+				func(v ssa.Value) bool { return isOptField(v, opt("ExcessCoeff")) })
+		}
+		fwdInv := map[int]bool{}
+		if kind == "linear" {
+			fwdInv[1] = c07ForwardInvariant(tm, l, paths, c1, "recv.Genes")
+			fwdInv[2] = c07ForwardInvariant(tm, l, paths, c2, "p1.Genes")
+		}
 		nBack, nExit := 0, 0
 		for _, ip := range paths {
 			if relInfeasible(tm, ip.Conds) {
 				continue
 			}
 			steps := func(ph *ssa.Phi, next ssa.Value) (int, bool) {
+				if ph == nil {
+					return 0, true // not carried by this loop: unchanged on every path
+				}
 				adds, subs, ok := ip.Delta(next, ph)
 				if !ok {
 					return 0, false
@@ -486,7 +513,11 @@ func C07(p *Prog, r *Run) {
 				units, unitKind, oku := 0, "", true
 				if kind == "linear" {
 					d, okd := steps(dCnt, ip.NextValue(dCnt))
-					e, oke := steps(eCnt, ip.NextValue(eCnt))
+					var eNext ssa.Value
+					if eCnt != nil {
+						eNext = ip.NextValue(eCnt)
+					}
+					e, oke := steps(eCnt, eNext)
 					oku = okd && oke
 					units = d + e
 					if d == 1 {
@@ -676,6 +707,26 @@ func C07(p *Prog, r *Run) {
 						}
 					}
 				}
+				if !accounted && kind == "linear" && ip.End == "exit" && tailInfo == nil {
+					// the remainder added in one piece somewhere behind the loop
+					var whyF string
+					accounted, whyF = c07ForwardRemainderOnAllPaths(fn, tm, ip, eCnt, c1, c2, fwdInv, func(v ssa.Value) bool { return isOptField(v, opt("ExcessCoeff")) })
+					if why == "" {
+						why = whyF
+					}
+				}
+				if !accounted && tailInfo != nil && ip.End == "exit" && ex1 != ex2 {
+					// tail-loop form: a sound tail loop over the list that is NOT exhausted lies on every way from this exit to the result
+					rest := 1
+					if ex1 {
+						rest = 2
+					}
+					if tl := tailInfo.ByList[rest]; tl != nil && tailInfo.OK && c07Unavoidable(ip.ExitTo, tl.Header) {
+						accounted = true
+					} else {
+						why = fmt.Sprintf(" (no sound tail loop over list %d lies on every way from this exit to the result)", rest)
+					}
+				}
 				if accounted {
 					r.OK(label, pos, "the walk ends with one list exhausted and adds the remainder of the other list to the distance")
 				} else {
@@ -683,6 +734,16 @@ func C07(p *Prog, r *Run) {
 				}
 			}
 		}
+		w := &c07Walk{Fn: fn, Kind: kind, Main: l, Tails: tails, C1: c1, C2: c2, D: dCnt, E: eCnt, M: mCnt, MD: mdAcc, Cost: costAcc, State: sw, Fam1: fam1, Fam2: fam2,
+			IsDc: func(v ssa.Value) bool { return isOptField(v, opt("DisjointCoeff")) },
+			IsEc: func(v ssa.Value) bool { return isOptField(v, opt("ExcessCoeff")) },
+			IsMc: func(v ssa.Value) bool { return isOptField(v, opt("MutdiffCoeff")) }}
+		if tailInfo != nil {
+			w.TailAcc = tailInfo.Last
+		}
+		r.c07CheckResult(w, tm, paths)
+		r.c07CheckStart(w, tm, paths)
+		r.c07CheckEarlyReturns(w, tm)
 		r.Floor(fn.Name()+" iteration paths", nBack, 3)
 		r.Floor(fn.Name()+" exit paths", nExit, 1)
 	}
